@@ -180,67 +180,116 @@ def c09_layouts(tier, seed):
             "hits": hits[:20], "n_hits": len(hits)}
 
 
+def _c15_cmd(shape, n):
+    if shape[0] == "ring":
+        return [P.HARNESS, "ring", str(n), str(shape[1]), str(128 * 1024)]
+    return [P.HARNESS, "tree", str(n), str(128 * 1024)]
+
+
+def _c15_edges(shape, n):
+    if shape[0] == "ring":
+        return n * (1 + shape[1])
+    leaves = sum(1 for i in range(1, n) if 3 * i + 1 >= n)
+    return (n - 1) + leaves
+
+
+def _c15_run(shape, n):
+    import resource
+    c0 = resource.getrusage(resource.RUSAGE_CHILDREN)
+    try:
+        p = subprocess.run(_c15_cmd(shape, n), stdout=subprocess.PIPE, stderr=subprocess.PIPE, timeout=600)
+        out = p.stdout.decode().strip()
+        rc = p.returncode
+    except subprocess.TimeoutExpired:
+        out, rc = "timeout", "timeout"
+    c1 = resource.getrusage(resource.RUSAGE_CHILDREN)
+    # CPU time of the child (build + teardown), in microseconds: immune to scheduling noise
+    cpu = int(((c1.ru_utime - c0.ru_utime) + (c1.ru_stime - c0.ru_stime)) * 1e6)
+    return out, rc, cpu
+
+
+def _c15_irefs(shape, n):
+    """instructions executed by the harness on this shape (build + the one drop that collects it), counted
+    by valgrind's cachegrind with the cache simulation off: deterministic up to the hash seeds, so work
+    that is superlinear in the number of objects shows as a ratio above the size ratio"""
+    import shutil
+    if not shutil.which("valgrind"):
+        return None
+    try:
+        p = subprocess.run(["valgrind", "--tool=cachegrind", "--cache-sim=no", "--cachegrind-out-file=/dev/null"]
+                           + _c15_cmd(shape, n), stdout=subprocess.PIPE, stderr=subprocess.PIPE, timeout=900)
+    except subprocess.TimeoutExpired:
+        return -1
+    m = re.search(r"I\s+refs:\s+([\d,]+)", p.stderr.decode(errors="replace"))
+    return int(m.group(1).replace(",", "")) if m else None
+
+
 def c15_rings(tier, seed):
+    """C15 on the implementation: three shapes collected by ONE drop on a 128 KiB stack -- a ring, a ring with
+    two chords per node (long worklist under a stack discipline) and a ternary tree whose leaves own the root
+    (long worklist under a queue discipline). Counters (one trace, every object visited once, pops <= 1 +
+    adoptions), constant stack depth, and linear growth of executed instructions and of CPU time."""
     sizes = [10, 100, 1000, 5000, 20000] if tier == "quick" else [10, 100, 1000, 10000, 50000, 200000]
     rows, hits = [], []
-    for chords in (0, 2):
+    for shape in (("ring", 0), ("ring", 2), ("tree",)):
+        name = "ring" if shape[0] == "ring" else "tree"
+        chords = shape[1] if shape[0] == "ring" else -1
+        label = "%s%s" % (name, (" chords=%d" % chords) if name == "ring" else "")
         depths = []
         for n in sizes:
-            import resource
-            c0 = resource.getrusage(resource.RUSAGE_CHILDREN)
-            try:
-                p = subprocess.run([P.HARNESS, "ring", str(n), str(chords), str(128 * 1024)],
-                                   stdout=subprocess.PIPE, stderr=subprocess.PIPE, timeout=600)
-                out = p.stdout.decode().strip()
-                rc = p.returncode
-            except subprocess.TimeoutExpired:
-                out, rc = "timeout", "timeout"
-            c1 = resource.getrusage(resource.RUSAGE_CHILDREN)
+            out, rc, cpu = _c15_run(shape, n)
             m = dict(re.findall(r"(\w+)=(\S+)", out))
-            # CPU time of the child (build + teardown), in microseconds: immune to scheduling noise
-            m["cpu_us"] = str(int(((c1.ru_utime - c0.ru_utime) + (c1.ru_stime - c0.ru_stime)) * 1e6))
-            rows.append({"n": n, "chords": chords, "rc": rc, **m})
-            edges = n * (1 + chords)
+            m["cpu_us"] = str(cpu)
+            rows.append({**m, "shape": name, "n": n, "chords": chords, "rc": rc})
+            edges = _c15_edges(shape, n)
             ok = (rc == 0 and m.get("destroyed") == str(n) and m.get("visits") == str(n)
                   and m.get("traces") == "1" and int(m.get("pops", 10 ** 12)) <= 1 + edges
                   and m.get("upgrade") == "false")
             if ok:
                 depths.append(int(m["depth"]))
             else:
-                hits.append({"type": "oracle", "hid": "ring", "line": "ring n=%d chords=%d on a 128 KiB stack" % (n, chords),
-                             "idx": 0, "oracle": "C15:ring-not-reclaimed-linearly:%s" % out.replace(" ", ","),
+                hits.append({"type": "oracle", "hid": name, "line": "%s n=%d on a 128 KiB stack" % (label, n),
+                             "idx": 0, "oracle": "C15:%s-not-reclaimed-linearly:%s" % (name, out.replace(" ", ",")),
                              "disc": "1", "d4": "0", "shrinkable": False})
-        # time must grow linearly with objects + adoptions: compare two sizes of the same shape (a ratio
-        # of the same machine's timings, best of three; quadratic work shows as the square of the size ratio)
-        ok_rows = {r["n"]: r for r in rows if r.get("chords") == chords and r.get("rc") == 0 and r.get("cpu_us") and "n" in r}
+        ok_rows = {r["n"]: r for r in rows if r.get("shape") == name and r.get("chords") == chords
+                   and r.get("rc") == 0 and r.get("cpu_us") and "n" in r}
         big = [n for n in sizes if n in ok_rows]
         if len(big) >= 2 and big[-2] >= 1000:
             n1, n2 = big[-2], big[-1]
+            # (a) executed instructions must grow linearly with objects + adoptions (quadratic work shows
+            # as the square of the size ratio; the margin of 1.25 absorbs hash-seed and allocator noise)
+            i1, i2 = _c15_irefs(shape, n1), _c15_irefs(shape, n2)
+            if i1 and i2 and i1 > 0:
+                ilimit = 1.25 * (n2 / n1)
+                iratio = (i2 / i1) if i2 > 0 else float("inf")
+                rows.append({"shape": "instruction-linearity", "of": label, "n1": n1, "n2": n2, "irefs1": i1,
+                             "irefs2": i2, "ratio": round(iratio, 3) if i2 > 0 else "timeout", "limit": ilimit})
+                if iratio > ilimit:
+                    hits.append({"type": "oracle", "hid": name, "line": "%s sizes %d -> %d" % (label, n1, n2), "idx": 0,
+                                 "oracle": "C15:superlinear-instruction-count:%d->%d" % (i1, i2), "disc": "1",
+                                 "d4": "0", "shrinkable": False})
+            else:
+                rows.append({"shape": "instruction-linearity", "of": label, "skipped": "valgrind unavailable"})
 
+            # (b) CPU time: a ratio of the same machine's timings, best of three
             def best(n, first):
-                import resource
                 ts = [int(first)]
                 for _ in range(2):
-                    try:
-                        c0 = resource.getrusage(resource.RUSAGE_CHILDREN)
-                        subprocess.run([P.HARNESS, "ring", str(n), str(chords), str(128 * 1024)],
-                                       stdout=subprocess.PIPE, stderr=subprocess.PIPE, timeout=600)
-                        c1 = resource.getrusage(resource.RUSAGE_CHILDREN)
-                        ts.append(int(((c1.ru_utime - c0.ru_utime) + (c1.ru_stime - c0.ru_stime)) * 1e6))
-                    except subprocess.TimeoutExpired:
-                        pass
+                    _o, _rc, cpu = _c15_run(shape, n)
+                    if _rc == 0:
+                        ts.append(cpu)
                 return max(1, min(ts))
             t1, t2 = int(ok_rows[n1]["cpu_us"]), int(ok_rows[n2]["cpu_us"])
             limit = 3.0 * (n2 / n1)
             if t2 / max(t1, 1) > limit:
                 t1, t2 = best(n1, t1), best(n2, t2)
-            rows.append({"shape": "time-linearity", "chords": chords, "n1": n1, "n2": n2, "us1": t1, "us2": t2,
+            rows.append({"shape": "time-linearity", "of": label, "n1": n1, "n2": n2, "us1": t1, "us2": t2,
                          "ratio": round(t2 / max(t1, 1), 2), "limit": limit})
             if t2 / max(t1, 1) > limit and t2 > 300000:
-                hits.append({"type": "oracle", "hid": "ring", "line": "ring sizes %d -> %d chords=%d" % (n1, n2, chords), "idx": 0,
+                hits.append({"type": "oracle", "hid": name, "line": "%s sizes %d -> %d" % (label, n1, n2), "idx": 0,
                              "oracle": "C15:superlinear-cpu-time:%dus->%dus" % (t1, t2), "disc": "1", "d4": "0", "shrinkable": False})
         if depths and max(depths) > min(depths) + 1024:
-            hits.append({"type": "oracle", "hid": "ring", "line": "ring sizes %s chords=%d" % (sizes, chords), "idx": 0,
+            hits.append({"type": "oracle", "hid": name, "line": "%s sizes %s" % (label, sizes), "idx": 0,
                          "oracle": "C15:stack-depth-grows-with-N:%s" % depths, "disc": "1", "d4": "0", "shrinkable": False})
     return {"rows": rows, "hits": hits}
 
@@ -335,6 +384,6 @@ def extra_checks(pid, cfg, tier, seed):
     if pid == "C15":
         r = _cached("c15-%s" % tier, lambda: c15_rings(tier, seed))
         return {"oracle_hits": r["hits"], "evaluations": len(r["rows"]), "distinct_nontrivial": len(r["rows"]),
-                "samples": ["ring n=%s chords=%s -> %s" % (x["n"], x["chords"], {k: x.get(k) for k in ("destroyed", "traces", "pops", "visits", "depth", "us")}) for x in [y for y in r["rows"] if "n" in y][:3]],
-                "evidence": {"rings_on_128KiB_stack (supporting measurement, not proof)": r["rows"]}}
+                "samples": ["%s n=%s chords=%s -> %s" % (x.get("shape"), x["n"], x["chords"], {k: x.get(k) for k in ("destroyed", "traces", "pops", "visits", "depth", "us")}) for x in [y for y in r["rows"] if "n" in y][:3]],
+                "evidence": {"rings_and_trees_on_128KiB_stack (supporting measurement, not proof)": r["rows"]}}
     return {}
